@@ -52,7 +52,10 @@ Record icase := mkICase {
   ic_out : outcome;                 (* implementation *)
   ic_post : istate cval;            (* implementation *)
   ic_world_post : world cval;       (* implementation: logs, calls, bound, props *)
-  ic_selected : option (list nat)   (* implementation: result of _select_transitions when observable *)
+  ic_selected : option (list nat);  (* implementation: result of _select_transitions when observable *)
+  ic_seq : option (list (option meta))
+      (* implementation: the monitored interpreter's evaluator calls (None) interleaved with the meta-events (Some m)
+         in the global order in which they happened, as seen by the first listener when that is a recorder *)
 }.
 
 (* the implementation's evaluator calls, oldest first, are the table entries in order *)
@@ -164,6 +167,14 @@ Definition B_OLD := 524288%N.     (* __old__ store                              
 Definition PB_HIST := 1048576%N.  (* C06: history restores/records as the replay of the macro step says *)
 Definition PB_SLOTS := 2097152%N. (* C08/C03: evaluator calls are exactly the documented points of the returned macro step *)
 Definition PB_FAIL := 4194304%N.  (* C08: a false/erring evaluation is the last one and is what the error carries *)
+Definition B_INTERLEAVE := 8388608%N. (* C10/C03: meta-events are emitted at the documented points BETWEEN the evaluator calls *)
+
+Definition model_seq (tr : list (obs cval)) : list (option meta) :=
+  flat_map (fun o => match o with
+                     | ObMeta m => [Some m]
+                     | ObExec _ _ | ObEval _ _ => [None]
+                     | ObSelected _ => []
+                     end) (rev tr).
 
 Definition bit (b : bool) (v : N) : N := if b then 0%N else v.
 
@@ -318,8 +329,12 @@ Definition check_icase (c : icase) : N :=
   (N.lor (istate_bits (m_i s) (ic_post c))
   (N.lor (world_bits (m_x s) (ic_world_post c))
   (N.lor (bit (list_eqb obs_eqb (filter is_call (rev (m_tr s))) (ic_trace c)) B_TRACE)
+  (N.lor (bit (match ic_seq c with
+               | Some l => list_eqb (opt_eqb meta_eqb) (model_seq (m_tr s)) l
+               | None => true
+               end) B_INTERLEAVE)
          (bit (list_eqb obs_eqb (filter is_call (rev (w_tr (m_x s)))) (ic_ptrace c))
-              B_PROPS)))))) in
+              B_PROPS))))))) in
   if N.eqb mask 0 then 0%N else
   (mask + 16777216 * first_diff (filter is_call (rev (m_tr s))) (ic_trace c)
         + 4294967296 * outcome_code out)%N.
